@@ -193,8 +193,19 @@ def r20(ctx):
     tr = cm.node.body[i_try[0]] if i_try else None
     if tr is not None:
         h = tr.handlers
-        ok = bool(h) and src(h[0].type) in ('ImportError', '(ImportError, OSError)') and any('_compile_cython_module_nocache' in src(s) for s in h[0].body)
-        ctx.decide('R20.5', cm.qual, 'except %s: rebuild' % (src(h[0].type) if h else '?'), ok, tr, 'a missing or unloadable module is rebuilt instead of failing')
+        rebuilds = bool(h) and any('_compile_cython_module_nocache' in src(s) for s in h[0].body)
+        caught = set()
+        if h and h[0].type is not None:
+            caught = {src(x) for x in (h[0].type.elts if isinstance(h[0].type, ast.Tuple) else [h[0].type])}
+        # the dynamic loader reports an existing but unloadable file (truncated, empty, wrong format) as a plain ImportError;
+        # ModuleNotFoundError is the subclass for "no such module" only
+        covers = (not h) is False and (h[0].type is None or bool(caught & {'ImportError', 'Exception', 'BaseException'}))
+        narrow = bool(caught) and caught <= {'ModuleNotFoundError', 'FileNotFoundError'}
+        ctx.decide('R20.5', cm.qual, 'except %s: rebuild' % (src(h[0].type) if h and h[0].type is not None else '?'),
+                   True if (rebuilds and covers) else (False if (narrow or not rebuilds) else None), tr,
+                   'a missing or unloadable module is rebuilt instead of failing' if (rebuilds and covers) else
+                   'the rebuild is reached only for %s; an existing but unloadable cache entry (left by a crash) raises a plain ImportError, which '
+                   'now propagates: the form can never be compiled again until the cache is cleared by hand' % sorted(caught), definite=True)
     md = [s for s in ctx.prog.unit(CP).tree.body if isinstance(s, ast.Assign) and src(s.targets[0]) == 'MODDIR']
     ok = bool(md) and 'platformdirs.user_cache_dir' in src(md[0].value)
     ctx.decide('R20.5', CP + '.MODDIR', src(md[0]) if md else 'MODDIR', ok or None, md[0] if md else cm.node, 'per-user cache directory')
